@@ -201,6 +201,20 @@ pub fn lw_pool(quick: bool) -> Vec<LwSpec> {
         let cfg = LwCfg { latency: 5, ..wide.clone() };
         v.push(sp(&format!("bulk.parent-lead-{}", lead), &cfg, &s, env, 1));
     }
+    // F13: long uninterrupted streams on the default windows: a Reliable packet, then 10 small packets in every round for 520 rounds
+    // (more than the 4096 ids of a packet window, the sender's window never empty in between), then the next Reliable packet on the
+    // same channel: leads and remembered parents older than a whole window. Variant: another channel carries a Reliable packet in every
+    // round, so the newest Reliable packet of the connection is never the one being acknowledged
+    for (name, other_reliable) in [("plain", false), ("reliable-on-another-channel", true)] {
+        let mut ops: Vec<Op> = vec![send(0, 0, 0, Reliable, 20)];
+        for r in 1..=520usize { for j in 0..9usize { ops.push(send(r, 0, (j % 2) as u8 * 2, Unreliable, 4 + (r + j) % 8)); } ops.push(send(r, 0, 1, if other_reliable { Reliable } else { Unreliable }, 12)); }
+        ops.push(send(521, 0, 0, Reliable, 21)); ops.push(send(521, 0, 2, Persistent, 22)); ops.push(send(522, 0, 0, Unreliable, 23));
+        let s = Arc::new(ScriptInfo::new(warm(&ops, 30)));
+        let mut env = env_live(30 + 519, 3);
+        env.fates = &[Fate::Deliver, Fate::Drop]; env.deltas = &[20];
+        let cfg = LwCfg { latency: 2, ..wide.clone() };
+        v.push(sp(&format!("bulk.long-stream.{}", name), &cfg, &s, env, if quick { 0 } else { 1 }));
+    }
     // F11: exactly one packet window (4) of small packets, one per round, every script over 2 channels x {U, R, P}, with up to three
     // frames lost: the window is exactly full while several packets are missing, and reopens piecewise
     let four = scripts_upto(4, &[0, 1], &[Unreliable, Reliable, Persistent], &[40], &[1]);
